@@ -11,7 +11,7 @@ LEVEL = 'fault_enumeration'
 SLACK = 0.020
 RULE = ('shapes = {BAM, RTS/CTS} x {J1939-21, J1939-22} x sizes giving P packets x windows {1,2,3,all} (P in {2,3,4,5,8,12} quick, 2..12 thorough, last packet full / partly filled); per '
         'shape one fault-free run fixes the number F of bus frames, then EVERY k in 1..F with (i) frame k lost, (ii) originator silent from its '
-        'k-th frame on, (iii) responder silent from its k-th frame on (exhaustive over k), each followed after the quiet point by a fresh transfer '
+        'k-th frame on, (iii) responder silent from its k-th frame on (exhaustive over k), plus configuration variants (asymmetric windows, configured packet intervals) and, in the thorough tier, two more latency assignments per shape and 15-25 sampled double losses per shape; each followed after the quiet point by a fresh transfer '
         'on the same pair; oracle = payload exact or nothing, session-table entry gone <= 1.25 s (3 s: FD originator waiting for the EOM ack) + 20 ms '
         'after the node\'s last session activity, abort frame present when an originator stopped waiting for CTS or a connection-mode responder '
         'stopped waiting for data, follow-up accepted and intact; a case = one (shape, fault kind) with all its k; non-trivial = >=1 faulted run '
@@ -43,6 +43,15 @@ def cases(tier, seed):
                             if mode == 'bam' and fault == 'sil_resp':
                                 continue
                             out.append(dict(layer=layer, mode=mode, size=size, w=w, fault=fault, seed=seed * 7919 + len(out)))
+        # thorough: other latency assignments and sampled double losses
+        if tier == 'thorough':
+            for P in (2, 3, 5, 8):
+                for w in (1, 2, 255):
+                    for ls in (1, 2):
+                        for fault in ('lose', 'sil_orig', 'sil_resp'):
+                            out.append(dict(layer=layer, mode='cmdt', size=unit * P - 1, w=w, fault=fault, lat_seed=ls, seed=seed * 7919 + len(out)))
+                    out.append(dict(layer=layer, mode='cmdt', size=unit * P - 1, w=w, fault='lose2', pairs=25, seed=seed * 7919 + len(out)))
+                out.append(dict(layer=layer, mode='bam', size=unit * P - 1, w=1, fault='lose2', pairs=15, seed=seed * 7919 + len(out)))
         # configuration variants: asymmetric windows, configured packet intervals
         for P in ((3, 5) if tier == 'quick' else (2, 3, 5, 8, 12)):
             size = unit * P - 2
@@ -59,7 +68,7 @@ def one_run(case, k, seed):
     """one transfer with fault k (k=0: fault-free); returns observation dict"""
     layer, mode, size, w, fault = case['layer'], case['mode'], case['size'], case['w'], case['fault']
     fd = layer == 'j1939-22'
-    W = World(seed, layer, (0.0002, 0.003))
+    W = World(seed + 7717 * case.get('lat_seed', 0), layer, (0.0002, 0.003))
     sim = W.sim
     kwa = dict(max_cmdt_packets=w)
     kwb = dict(max_cmdt_packets=case.get('wb', w))
@@ -76,11 +85,13 @@ def one_run(case, k, seed):
     tabs = {'A': observe_tables(A, sim), 'B': observe_tables(B, sim)}
     W.run(0.01)
     if k:
-        if fault == 'lose':
+        if fault == 'lose2':
+            W.bus.lose = set(k)
+        elif fault == 'lose':
             W.bus.lose = {k}
         elif fault == 'sil_orig':
             W.bus.silence = {'A': k}
-        else:
+        elif fault == 'sil_resp':
             W.bus.silence = {'B': k}
     rng = random.Random(seed)
     pay = [rng.randrange(256) for _ in range(size)]
@@ -123,14 +134,20 @@ def run_case(case):
     base_sig = [(f.src, f.can_id, f.data) for f in base['frames'][:base['n1']]]
     ok = judge(case, base, 0, viol, obs, fault_free=True)
     base['W'].close()
-    if fault == 'lose':
+    if fault in ('lose', 'lose2'):
         F = base['wire1']
     elif fault == 'sil_orig':
         F = base['sent_by1'].get('A', 0)
     else:
         F = base['sent_by1'].get('B', 0)
     reasons = set()
-    for k in range(1, F + 1):
+    points = list(range(1, F + 1))
+    if fault == 'lose2':
+        prng = random.Random(case['seed'])
+        allp = [(a, b) for a in range(1, F + 1) for b in range(a + 1, F + 2)]
+        prng.shuffle(allp)
+        points = allp[:case.get('pairs', 20)]
+    for k in points:
         r = one_run(case, k, case['seed'])
         obs['faulted_runs'] += 1
         sig = [(f.src, f.can_id, f.data) for f in r['frames'][:r['n1']] if not (f.lost or f.silenced)]
@@ -140,7 +157,7 @@ def run_case(case):
         r['W'].close()
     sample = dict(case=case, fault_points=F, baseline_frames=[f.brief() for f in base['frames'][:min(base['n1'], 10)]],
                   abort_reasons_seen=sorted(reasons))
-    return dict(violations=list(viol), inconclusive=None if F > 0 else 'baseline run produced no frames', sig=repr((layer, mode, size, w, case.get('wb'), case.get('dt_interval'), case.get('bam_interval'), fault)),
+    return dict(violations=list(viol), inconclusive=None if F > 0 else 'baseline run produced no frames', sig=repr((layer, mode, size, w, case.get('wb'), case.get('dt_interval'), case.get('bam_interval'), case.get('lat_seed'), fault)),
                 nontrivial=obs['effective_faults'] > 0, obs=obs, sample=sample)
 
 
@@ -155,7 +172,7 @@ def judge(case, r, k, viol, obs, fault_free=False, reasons=None):
     layer, mode, size, w, fault = case['layer'], case['mode'], case['size'], case['w'], case['fault']
     fd = layer == 'j1939-22'
     tag = dict(layer=layer, mode=mode, fault='none' if fault_free else fault)
-    where = '%s %s size=%d w=%d %s k=%d' % (layer, mode, size, w, 'fault-free' if fault_free else fault, k)
+    where = '%s %s size=%d w=%d %s k=%s' % (layer, mode, size, w, 'fault-free' if fault_free else fault, k)
     W = r['W']
     for p in r['live2']:
         viol.add(p['kind'], '%s: %s %s at %s' % (where, p['thread'], p['exc'], p['where']), where=p['where'], exc=p['exc'].split('(')[0], **tag)
